@@ -1,9 +1,11 @@
 package props
 
 import (
+	"encoding/hex"
 	"fmt"
 	"strings"
 	"testing"
+	"unicode/utf8"
 
 	"github.com/onheap/eval"
 	"pgregory.net/rapid"
@@ -22,7 +24,10 @@ type C14Case struct {
 	DirMask int      `json:"dir_mask"`          // -1: none; else a directive for this subset is put in front of Layouts[0]
 	DirVar  int      `json:"dir_variant,omitempty"`
 	Soup    string   `json:"soup,omitempty"` // arbitrary text: formatter token preservation only
-	Origin  string   `json:"origin,omitempty"`
+	// SoupHex: the same, for text that is not valid UTF-8 (a source is a Go string: any bytes) - hex-encoded so
+	// that the case file holds the bytes exactly
+	SoupHex string `json:"soup_hex,omitempty"`
+	Origin  string `json:"origin,omitempty"`
 }
 
 var layoutSpaces = []string{"\u1680", "\u2000", "\u2009", "\u200a", "\u2028", "\u2029", "\u202f", "\u205f", "\u2003\u2028 ", " ", "  ", "\t", "\n", "\r\n", " ", " ", "　", "\u0085", " \n  ", "\v", "\f", " "}
@@ -105,6 +110,13 @@ func genC14(t *rapid.T) C14Case {
 		s := genSoup(t)
 		if rapid.Bool().Draw(t, "withstr") {
 			s += " \"" + genHostileString(t) + "\" " + genSoup(t)
+		}
+		if rapid.IntRange(0, 5).Draw(t, "badutf8") == 0 {
+			// a small valid program around a string literal (or a comment) holding bytes that are not UTF-8
+			bad := rapid.SampledFrom([]string{"caf\xe9", "\xff", "a\xc3", "\xe2\x82", "\xf0\x9f\x98", "ok\x80ok", "\xc0\xaf", "\xed\xa0\x80"}).Draw(t, "badbytes")
+			src := rapid.SampledFrom([]string{`(= x "%s")`, `(in x ("a" "%s" "b"))`, `(and a (= x "%s") ; %s` + "\n b)", `(if a "%s" "z")`, `x = "%s"`, `"%s"`, `("%s" "%s")`}).Draw(t, "badshape")
+			s = strings.ReplaceAll(src, "%s", bad)
+			return C14Case{SoupHex: hex.EncodeToString([]byte(s)), DirMask: -1, Infix: rapid.Bool().Draw(t, "infix"), Origin: "soup-bad-utf8"}
 		}
 		return C14Case{Soup: s, DirMask: -1, Infix: rapid.Bool().Draw(t, "infix"), Origin: "soup"}
 	}
@@ -198,6 +210,12 @@ func c14Compile(c *C14Case, src string, mask int) (*eval.Expr, string, string, O
 }
 
 func checkC14(c C14Case, r *Rec) *Violation {
+	if c.SoupHex != "" {
+		if b, err := hex.DecodeString(c.SoupHex); err == nil {
+			c.Soup = string(b)
+			r.Class("soup-with-bytes-that-are-not-utf8")
+		}
+	}
 	if c.Soup != "" || c.Canon == "" {
 		formatted, v := formatterPreserves(c.Soup)
 		if v != nil {
@@ -345,7 +363,7 @@ func TestC14Replay(t *testing.T) { Replay(t, propC14) }
 
 // FuzzC14: any text through the formatter, token sequence preserved.
 func FuzzC14(f *testing.F) {
-	for _, s := range []string{`(= x "a  b")`, `(= x "a(b")`, `(= x "a;b")`, "(and a ; c\n b)", `a"b c"`, `"unterminated (`, "(in x (\"a\" \"b\")) ; list", "[1 2 3]", ";;;; optimize:false\n(or a b)", `f(a, "x y", [1 2])`, "(a\n;c\n;d\n(b))"} {
+	for _, s := range []string{`(= x "a  b")`, `(= x "a(b")`, `(= x "a;b")`, "(and a ; c\n b)", `a"b c"`, `"unterminated (`, "(in x (\"a\" \"b\")) ; list", "[1 2 3]", ";;;; optimize:false\n(or a b)", `f(a, "x y", [1 2])`, "(a\n;c\n;d\n(b))", "(= x \"caf\xe9\")", "(in x (\"\xff\" \"a\"))"} {
 		f.Add(s)
 	}
 	f.Fuzz(func(t *testing.T, s string) {
@@ -353,6 +371,9 @@ func FuzzC14(f *testing.F) {
 			return
 		}
 		c := C14Case{Soup: s, DirMask: -1, Origin: "native-fuzz"}
+		if !utf8.ValidString(s) {
+			c = C14Case{SoupHex: hex.EncodeToString([]byte(s)), DirMask: -1, Origin: "native-fuzz"}
+		}
 		if s == "" {
 			return
 		}
